@@ -2,6 +2,7 @@ import Bardic.Driver.Obs
 import Bardic.Driver.StdlibRun
 import Bardic.Driver.CodecRun
 import Bardic.Driver.IncludeRun
+import Bardic.Driver.GraphRun
 /-!
 # `driver`: line protocol.  One JSON case per input line, one JSON answer per output line.
 -/
@@ -110,6 +111,7 @@ def handle (line : String) : String :=
     | "stdlib" => (runStdlib j).compress
     | "codec" => (runCodec j).compress
     | "include" => (runInclude j).compress
+    | "graph" => (runGraph j).compress
     | k => (jObj [("status", "unknown_kind"), ("kind", .str k)]).compress
 
 partial def loop (h : IO.FS.Stream) (out : IO.FS.Stream) : IO Unit := do
